@@ -149,6 +149,20 @@ func (c *Ctx) Min(id, what string, got, want int) {
 	}
 }
 
+// ImportObligation re-reports an obligation evaluated by another property's rule
+// under id `as` of this property (a clause both statements depend on).
+func (c *Ctx) ImportObligation(o *Obligation, as, why string) {
+	cp := *o
+	cp.ID = as
+	cp.Key = as + ":" + o.Key
+	cp.Rule = o.Rule + " [shared with " + o.ID + ": " + why + "]"
+	cp.Known = ""
+	if cp.Func != "" {
+		c.Analysed[cp.Func] = true
+	}
+	c.Obls = append(c.Obls, &cp)
+}
+
 // Note adds free text to the evidence.
 func (c *Ctx) Note(format string, a ...any) { c.Notes = append(c.Notes, fmt.Sprintf(format, a...)) }
 
